@@ -48,7 +48,7 @@ def Var.ofString? : String → Option Var
 
 /-- the kind of entry point a row is about (the prefix of the entry name) -/
 inductive Kind where
-  | engine | go | timer | store | ext | startup
+  | engine | go | timer | store | ext | api | init | startup
   deriving DecidableEq, Repr
 
 def Kind.ofEntry (e : String) : Kind :=
@@ -57,6 +57,8 @@ def Kind.ofEntry (e : String) : Kind :=
   else if e.startsWith "timer:" then .timer
   else if e.startsWith "store:" then .store
   else if e.startsWith "ext:" then .ext
+  else if e.startsWith "api:" then .api
+  else if e.startsWith "init:" then .init
   else .engine
 
 structure Row where
@@ -239,8 +241,8 @@ def table : List Row := [
   ⟨.offset, "FileQueue.PutBatch", false, true, .engine, "DPoVP.InsertConfirms"⟩,
   ⟨.offset, "FileQueue.PutBatch", false, true, .engine, "DPoVP.MineBlock"⟩,
   ⟨.offset, "FileQueue.PutBatch", false, true, .store, "store:SetStableBlock"⟩,
-  ⟨.offset, "FileQueue.checkFile", false, false, .startup, "-"⟩,
-  ⟨.offset, "FileQueue.checkFile", true, false, .startup, "-"⟩,
+  ⟨.offset, "FileQueue.checkFile", false, true, .init, "init:store.NewChainDataBase"⟩,
+  ⟨.offset, "FileQueue.checkFile", true, true, .init, "init:store.NewChainDataBase"⟩,
   ⟨.offset, "FileQueue.deliver", false, true, .engine, "DPoVP.InsertBlock"⟩,
   ⟨.offset, "FileQueue.deliver", false, true, .engine, "DPoVP.InsertConfirms"⟩,
   ⟨.offset, "FileQueue.deliver", false, true, .engine, "DPoVP.MineBlock"⟩,
@@ -261,8 +263,8 @@ def table : List Row := [
   ⟨.offset, "FileQueue.emptyFile", true, true, .store, "store:SetConfirms"⟩,
   ⟨.offset, "FileQueue.emptyFile", true, true, .store, "store:SetContractCode"⟩,
   ⟨.offset, "FileQueue.emptyFile", true, true, .store, "store:SetStableBlock"⟩,
-  ⟨.offset, "FileQueue.scanFile", false, false, .startup, "-"⟩,
-  ⟨.offset, "FileQueue.scanFile", true, false, .startup, "-"⟩,
+  ⟨.offset, "FileQueue.scanFile", false, true, .init, "init:store.NewChainDataBase"⟩,
+  ⟨.offset, "FileQueue.scanFile", true, true, .init, "init:store.NewChainDataBase"⟩,
   ⟨.head, "ForkManager.GetHeadBlock", false, true, .engine, "DPoVP.InsertBlock"⟩,
   ⟨.head, "ForkManager.GetHeadBlock", false, true, .engine, "DPoVP.InsertConfirms"⟩,
   ⟨.head, "ForkManager.GetHeadBlock", false, true, .engine, "DPoVP.MineBlock"⟩,
@@ -320,6 +322,11 @@ def guards : List (Var × String) := [
   (.blockRecord, "ChainDatabase.RW"),
   (.headDecision, "DPoVP.chainLock")
 ]
+
+/-- functions of the anchored packages that call (second number: start with go / time.AfterFunc) a function VALUE
+    (func-typed variable, parameter or field): the scanner's call graph does not follow these calls; function literals
+    are analysed where they are DEFINED.  The list is compared on every run: a new entry is a table-mismatch. -/
+def dynCalls : List (String × Nat × Nat) := [("CBlock.Walk", 1, 0), ("ChainDatabase.IterateUnConfirms", 1, 0), ("ChainDatabase.SetStableBlock", 2, 0), ("ChainDatabase.blockCommit", 3, 0), ("RunContext.flush", 2, 0), ("TrieDatabase.Commit", 1, 0)]
 
 /-- head reads that are deliberately made before the chain lock is taken (see the header) -/
 def benignPrechecks : List String := ["DPoVP.InsertBlock/DPoVP.isIgnorableBlock"]
